@@ -614,7 +614,7 @@ func judgeWritten(g *graph, c *Case, wr *written) (fa facts, out []failure) {
 	same := bytes.Equal(pu, po)
 	hu, ok := stdsec.OpenPrepared(d, id0, pu)
 	if !ok || !hu.IsUser {
-		fail("auth:user-password-rejected:"+fa.cfg(), "the independent handler does not accept the user password %q (ID %q, dict %s)", c.User, id0, encV.String())
+		fail("auth:user-password-rejected:"+fa.cfg()+pwClass(c, c.User, d.R), "the independent handler does not accept the user password %q%s (ID %q, dict %s)", c.User, whichCut(d, id0, c.User, false), id0, encV.String())
 		return
 	}
 	ho, ok := stdsec.OpenPrepared(d, id0, po)
@@ -634,7 +634,7 @@ func judgeWritten(g *graph, c *Case, wr *written) (fa facts, out []failure) {
 		}
 	}
 	if !ok || !ho.IsOwner {
-		fail("auth:owner-password-rejected:"+fa.cfg(), "the independent handler does not accept the owner password %q as owner password (ID %q, dict %s)", effOwner, id0, encV.String())
+		fail("auth:owner-password-rejected:"+fa.cfg()+pwClass(c, effOwner, d.R), "the independent handler does not accept the owner password %q as owner password%s (ID %q, dict %s)", effOwner, whichCut(d, id0, effOwner, true), id0, encV.String())
 		return
 	}
 	if !bytes.Equal(hu.Key, ho.Key) {
